@@ -67,6 +67,8 @@ def make_transport():
             if self.w.dev.open and not self.closed:
                 self.w.dev.inbuf += data
             s.log(ev='host_send', data=data.decode('latin-1'))
+            if s.me() is not None and not s.aborting:
+                s.yield_('dev.sent')
 
         def recv(self):
             s = self.w.sched
